@@ -258,7 +258,10 @@ impl<F: Flavor> Sys<F> {
                     if s.req < n {
                         out.p("C13", "send-did-not-wake", format!("slot {}: a state newer than the requested one was published while this receiver was pending, but it has not been woken through the waker of its latest poll", i));
                     } else if self.closed {
-                        out.p("C11", "pending-not-woken", format!("slot {}: the channel was closed while this receiver was pending, but it has not been woken through the waker of its latest poll", i));
+                        // C11, and C13: "a receiver waiting for something newer is woken by the next send or by close"
+                        for p in ["C11", "C13"] {
+                            out.p(p, "pending-not-woken", format!("slot {}: the channel was closed while this receiver was pending, but it has not been woken through the waker of its latest poll", i));
+                        }
                     }
                 }
             }
